@@ -20,58 +20,6 @@ def cpythonTables (commaAware : Bool) : Tables :=
     ifTest := .d1, ifBody := .d0, ifOrelse := .e,
     slicesCommaAware := commaAware }
 
-/-! ### the guard: no `a[s,]` (one slice + trailing comma) unless the source handles it -/
-
-mutual
-/-- `cf b pt`: `b` (the source is comma-aware) or `pt` has no single slice with a trailing comma -/
-def cf (b : Bool) : PT → Bool
-  | .ternary d0 d1 e => cf b d0 && cf b d1 && cf b e
-  | .exprD d => cf b d
-  | .disj cs => cfL b cs
-  | .conj cs => cfL b cs
-  | .invNot i => cf b i
-  | .invC c => cf b c
-  | .cmp f _ xs => cf b f && cfL b xs
-  | .bor l r => cf b l && cf b r
-  | .borT x => cf b x
-  | .bxor l r => cf b l && cf b r
-  | .bxorT x => cf b x
-  | .band l r => cf b l && cf b r
-  | .bandT x => cf b x
-  | .shift l _ r => cf b l && cf b r
-  | .shiftT x => cf b x
-  | .sum l _ r => cf b l && cf b r
-  | .sumT x => cf b x
-  | .term l _ r => cf b l && cf b r
-  | .termT x => cf b x
-  | .factor _ x => cf b x
-  | .factorT x => cf b x
-  | .power x e => cf b x && cf b e
-  | .powerT x => cf b x
-  | .awaitP p => cf b p
-  | .awaitT p => cf b p
-  | .attr p _ => cf b p
-  | .call p _ args => cf b p && cfL b args
-  | .subscr p ss tc => cf b p && cfL b ss && (b || !(tc && ss.length == 1))
-  | .primA a => cf b a
-  | .slice lo hi st => cf b lo && cf b hi && cf b st
-  | .sliceE e => cf b e
-  | .absent => true
-  | .name _ => true
-  | .true_ => true
-  | .false_ => true
-  | .none_ => true
-  | .ellipsis => true
-  | .num _ => true
-  | .str _ => true
-  | .group e => cf b e
-  | .tuple xs => cfL b xs
-  | .list xs => cfL b xs
-def cfL (b : Bool) : List PT → Bool
-  | [] => true
-  | x :: xs => cf b x && cfL b xs
-end
-
 mutual
 theorem cf_true : (pt : PT) → cf true pt = true
   | .ternary d0 d1 e => by simp [cf, cf_true d0, cf_true d1, cf_true e]
